@@ -768,7 +768,7 @@ impl TimeProvider for SimClock {
             if let Some((_, v)) = w.cfg.unix_plan.iter().find(|(i, _)| *i == idx) {
                 return v.get();
             }
-            w.cfg.unix_base + w.cfg.unix_step * idx as f64
+            w.cfg.unix_base + w.cfg.unix_step * idx as f64 + (w.slept_ns as f64) * 1e-9
         })
     }
 }
